@@ -219,41 +219,46 @@ class Lit:
             return self._comp(n)
         if isinstance(n, ast.Call):
             if isinstance(n.func, ast.Name) and n.func.id in self.PURE and not n.keywords:
-                return self.PURE[n.func.id](*[self.ev(a) for a in n.args])
+                return self.PURE[n.func.id](*self._seq(n.args))
             if isinstance(n.func, ast.Attribute) and isinstance(n.func.value, ast.Name) and n.func.value.id == 're' and n.func.value.id not in self.env \
                and n.func.attr in ('split', 'sub', 'match', 'fullmatch', 'findall', 'search', 'compile', 'escape') and not n.keywords:
                 import re as _re
-                args = [self.ev(a) for a in n.args]
+                args = self._seq(n.args)
                 if all(isinstance(a, (str, int)) for a in args):
                     return getattr(_re, n.func.attr)(*args)      # standard-library primitive on literal arguments
             if isinstance(n.func, ast.Name) and n.func.id not in self.env and n.func.id not in self.PURE:
                 m_, node_ = self.repo.resolve(self.modname, n.func.id)
                 if isinstance(node_, ast.Call) and isinstance(node_.func, ast.Name) and node_.func.id == 'namedtuple':
                     cls_ = Lit(self.repo, m_.name).ev(node_)
-                    return cls_(*[self.ev(a) for a in n.args], **{k.arg: self.ev(k.value) for k in n.keywords})
+                    return cls_(*self._seq(n.args), **self._kw(n.keywords))
             if isinstance(n.func, ast.Name) and n.func.id == 'namedtuple' and n.func.id not in self.env and len(n.args) == 2 and not n.keywords:
                 import collections
-                return collections.namedtuple(*[self.ev(a) for a in n.args])      # standard-library primitive on literal arguments
-            if isinstance(n.func, ast.Name) and n.func.id == 'defaultdict' and n.func.id not in self.env and n.args and not n.keywords \
-               and isinstance(n.args[0], ast.Name) and n.args[0].id in ('list', 'int', 'dict', 'set', 'str') and n.args[0].id not in self.env:
+                return collections.namedtuple(*self._seq(n.args))      # standard-library primitive on literal arguments
+            if isinstance(n.func, ast.Name) and n.func.id == 'defaultdict' and n.func.id not in self.env and n.args and not n.keywords:
                 import collections
-                return collections.defaultdict(self.PURE.get(n.args[0].id, str), *[self.ev(a) for a in n.args[1:]])      # library primitive, builtin factory
+                if isinstance(n.args[0], ast.Name) and n.args[0].id in ('list', 'int', 'dict', 'set', 'str') and n.args[0].id not in self.env:
+                    return collections.defaultdict(self.PURE.get(n.args[0].id, str), *self._seq(n.args[1:]))      # library primitive, builtin factory
+                fac = self.ev(n.args[0])
+                if getattr(fac, '_sa_fold_ok', False) and callable(fac):
+                    return collections.defaultdict(fac, *self._seq(n.args[1:]))                                   # factory is a folded lambda
             if isinstance(n.func, ast.Name) and n.func.id == 'eval' and len(n.args) == 1:
                 src = self.ev(n.args[0])
                 if isinstance(src, str):
-                    tree = ast.parse(src, mode='eval').body
+                    tree = ast.parse(src, mode='eval').body          # SyntaxError propagates as in CPython
                     for x in ast.walk(tree):
+                        if isinstance(x, ast.Name):
+                            raise NameError("name '%s' is not defined" % x.id)      # eval() of text with a free name
                         if not isinstance(x, (ast.BinOp, ast.UnaryOp, ast.Constant, ast.operator, ast.unaryop, ast.expr_context, ast.Compare, ast.BoolOp, ast.cmpop, ast.boolop)):
                             raise NotLiteral('eval of non-arithmetic text')
                     try:
                         return Lit(self.repo, self.modname).ev(tree)
                     except ZeroDivisionError:
                         raise ValueError('division by zero')
-            if isinstance(n.func, ast.Attribute) and n.func.attr in ('format', 'join', 'upper', 'lower', 'count', 'items', 'keys', 'values', 'get', 'split', 'strip', 'replace', 'startswith', 'endswith', 'isspace', 'isdigit', 'partition', 'rpartition', 'index', 'find', 'ljust', 'rjust', 'zfill', 'isalpha', 'title', 'lstrip', 'rstrip'):
+            if isinstance(n.func, ast.Attribute) and n.func.attr in ('format', 'join', 'upper', 'lower', 'count', 'items', 'keys', 'values', 'get', 'split', 'strip', 'replace', 'startswith', 'endswith', 'isspace', 'isdigit', 'partition', 'rpartition', 'index', 'find', 'ljust', 'rjust', 'zfill', 'isalpha', 'title', 'lstrip', 'rstrip', 'isalnum', 'isidentifier', 'isupper', 'islower', 'capitalize', 'swapcase', 'center', 'splitlines', 'casefold', 'removeprefix', 'removesuffix', 'rsplit', 'rfind', 'rindex', 'isnumeric', 'isdecimal', 'translate', 'expandtabs', 'encode', 'decode', 'hex'):
                 base = self.ev(n.func.value)
-                if isinstance(base, (str, dict, tuple, list)):
-                    args = [self.ev(a) for a in n.args]
-                    kw = {k.arg: self.ev(k.value) for k in n.keywords}
+                if isinstance(base, (str, dict, tuple, list, bytes, bytearray)):
+                    args = self._seq(n.args)
+                    kw = self._kw(n.keywords)
                     return getattr(base, n.func.attr)(*args, **kw)
             if isinstance(n.func, ast.Attribute) and n.func.attr in ('append', 'extend', 'pop', 'clear', 'insert', 'setdefault', 'update', 'write', 'add', 'discard', 'remove', 'copy', 'reverse', 'sort', 'popitem'):
                 try:
@@ -261,7 +266,7 @@ class Lit:
                 except NotLiteral:
                     base = None
                 if isinstance(base, (list, dict, set, bytearray)) or (getattr(base, '_sa_fold_ok', False) and hasattr(base, n.func.attr)):
-                    args = [self.ev(a) for a in n.args]
+                    args = self._seq(n.args)
                     return getattr(base, n.func.attr)(*args)
             if isinstance(n.func, ast.Attribute):
                 # methods of model objects supplied by the checker (not repository instances), of re.Match and of named tuples
@@ -275,7 +280,7 @@ class Lit:
                        (isinstance(base, _re.Match) and n.func.attr in ('group', 'groups', 'start', 'end', 'span', 'groupdict')) or \
                        (isinstance(base, _re.Pattern) and n.func.attr in ('search', 'match', 'fullmatch', 'findall', 'sub', 'split', 'finditer')) or \
                        (isinstance(base, tuple) and hasattr(base, '_fields') and n.func.attr in ('_replace', '_asdict')):
-                        return getattr(base, n.func.attr)(*[self.ev(a) for a in n.args], **{k.arg: self.ev(k.value) for k in n.keywords})
+                        return getattr(base, n.func.attr)(*self._seq(n.args), **self._kw(n.keywords))
             return self._opaque(n)
         if isinstance(n, ast.Attribute):
             try:
@@ -288,6 +293,8 @@ class Lit:
                 return getattr(base, n.attr)
             if isinstance(base, tuple) and n.attr in getattr(base, '_fields', ()):
                 return getattr(base, n.attr)
+            if isinstance(base, BaseException) and n.attr == 'args':
+                return base.args
             raise NotLiteral('attribute ' + n.attr)
         if isinstance(n, ast.Starred):
             raise NotLiteral('starred')
@@ -300,6 +307,15 @@ class Lit:
                 out.extend(self.ev(e.value))
             else:
                 out.append(self.ev(e))
+        return out
+
+    def _kw(self, keywords):
+        out = {}
+        for k in keywords:
+            if k.arg is None:
+                out.update(self.ev(k.value))          # **mapping
+            else:
+                out[k.arg] = self.ev(k.value)
         return out
 
     def _comp(self, n):
@@ -387,15 +403,33 @@ class ModuleFold:
             try:
                 for s in st.body:
                     self.stmt(s)
-            except (KeyError, IndexError, ValueError, TypeError) as e:
+            except (KeyError, IndexError, ValueError, TypeError, NameError, SyntaxError, ZeroDivisionError, OverflowError, AttributeError) as e:
+                names = getattr(e, 'mro_names', None) or [c.__name__ for c in type(e).__mro__]
                 for h in st.handlers:
-                    hn = ast.unparse(h.type) if h.type is not None else ''
-                    if h.type is None or type(e).__name__ in hn or hn in ('Exception', 'LookupError'):
-                        for s in h.body:
-                            self.stmt(s)
+                    if h.type is None:
+                        hnames = None
+                    else:
+                        elts = h.type.elts if isinstance(h.type, ast.Tuple) else [h.type]
+                        hnames = [ast.unparse(x).split('.')[-1] for x in elts]
+                    if hnames is None or any(x in names for x in hnames):
+                        if h.name:
+                            self.env[h.name] = e
+                        prev, self._cur_exc = getattr(self, '_cur_exc', None), e
+                        try:
+                            for s in h.body:
+                                self.stmt(s)
+                        finally:
+                            self._cur_exc = prev
                         break
                 else:
                     raise
+            else:
+                for s in st.orelse:
+                    self.stmt(s)
+            finally:
+                if st.finalbody:
+                    for s in st.finalbody:
+                        self.stmt(s)
         elif isinstance(st, ast.AugAssign):
             cur = self.lit().ev(st.target)
             v = _BIN[type(st.op)](cur, self.lit().ev(st.value))
@@ -458,8 +492,25 @@ class ModuleFold:
         elif isinstance(st, ast.Continue):
             raise _Continue()
         elif isinstance(st, ast.Raise):
-            name = ast.unparse(st.exc).split('(')[0] if st.exc is not None else 'ValueError'
-            raise {'ValueError': ValueError, 'KeyError': KeyError, 'TypeError': TypeError, 'IndexError': IndexError}.get(name, ValueError)('raised by folded code')
+            if st.exc is None:
+                if getattr(self, '_cur_exc', None) is not None:
+                    raise self._cur_exc
+                raise NotLiteral('bare raise outside a handler')
+            name = ast.unparse(st.exc).split('(')[0]
+            import builtins
+            b = getattr(builtins, name, None)
+            args = []
+            if isinstance(st.exc, ast.Call):
+                try:
+                    args = self.lit()._seq(st.exc.args)
+                except NotLiteral:
+                    args = ['raised by folded code']
+            if isinstance(b, type) and issubclass(b, BaseException):
+                raise b(*args)
+            exc = FoldedRaise(*args)
+            exc.clsname = name
+            exc.mro_names = exc_names(self.repo, self.modname, name)
+            raise exc
         elif isinstance(st, ast.While):
             n = 0
             while self.lit().ev(st.test):
@@ -503,6 +554,38 @@ class ModuleFold:
             setattr(base, tg.attr, v)
         else:
             raise NotLiteral('store target')
+
+class FoldedRaise(ValueError):
+    _sa_fold_ok = True
+    """An exception class of the repository raised by folded code (modelled as a ValueError subclass: handlers that name it, or
+    `Exception`, catch it; handlers naming unrelated repository classes are matched by name below)."""
+
+def exc_names(repo, modname, clsname, depth=0):
+    """Names of the classes a repository exception class derives from (itself first), following imports between repository modules."""
+    import builtins
+    out = [clsname]
+    if depth > 8:
+        return out
+    try:
+        mod = repo.mod(modname)
+    except FactError:
+        return out
+    if clsname in mod.classes:
+        for b in mod.classes[clsname].bases:
+            bn = ast.unparse(b).split('.')[-1]
+            bb = getattr(builtins, bn, None)
+            if isinstance(bb, type) and issubclass(bb, BaseException):
+                out += [c.__name__ for c in bb.__mro__]
+            else:
+                out += exc_names(repo, modname, bn, depth + 1)
+    elif clsname in mod.imports:
+        src, orig = mod.imports[clsname]
+        m2 = '__init__' if src == 'skoolkit' else (src.split('.', 1)[1] if src.startswith('skoolkit.') else None)
+        if m2 is not None:
+            out = exc_names(repo, m2, orig, depth + 1)
+            if out and out[0] != clsname:
+                out = [clsname] + out
+    return out
 
 class _Break(Exception):
     pass
@@ -588,7 +671,7 @@ class ModFolder:
                     target = lit.ev(n.func)
                 except NotLiteral:
                     return None
-                kw = {k.arg: lit.ev(k.value) for k in n.keywords if k.arg}
+                kw = lit._kw(n.keywords)
                 if isinstance(target, tuple) and len(target) == 2 and target[0] == 'f':
                     r = self.call(target[1], lit._seq(n.args), kw)
                     return FOLDED_NONE if r is None else r
@@ -647,7 +730,7 @@ class ObjFolder:
                         pass
                 if target is not None:
                     args = [lit.ev(a) for a in n.args]
-                    kw = {k.arg: lit.ev(k.value) for k in n.keywords}
+                    kw = lit._kw(n.keywords)
                     r = self.call(target, args, kw)
                     return FOLDED_NONE if r is None else r
             return None
